@@ -284,8 +284,13 @@ pub fn flate_decode(data: &[u8], params: &LZWFlateParams) -> Result<Vec<u8>> {
 
     let predictor = params.predictor as usize;
     let n_components = params.n_components as usize;
+    let bits_per_component = params.bits_per_component as usize;
     let columns = params.columns as usize;
-    let stride = columns * n_components;
+    // a row holds `columns` pixels of `n_components` samples of `bits_per_component` bits,
+    // padded to a whole byte; PNG filters work on bytes at the distance of one (rounded-up) pixel
+    let bits_per_pixel = n_components * bits_per_component;
+    let bytes_per_pixel = (bits_per_pixel + 7) / 8;
+    let stride = (columns * bits_per_pixel + 7) / 8;
 
 
     // First flate decode
@@ -328,7 +333,7 @@ pub fn flate_decode(data: &[u8], params: &LZWFlateParams) -> Result<Vec<u8>> {
                 let (prev, curr) = out.split_at_mut(out_off);
                 (&prev[last_out_off ..], &mut curr[.. stride])
             };
-            unfilter(predictor, n_components, prev_row, row_in, row_out);
+            unfilter(predictor, bytes_per_pixel, prev_row, row_in, row_out);
             
             last_out_off = out_off;
             
